@@ -120,7 +120,7 @@ func Sleep(d time.Duration) {
 		simrt.Yield("time.Sleep", 1)
 		return
 	}
-	simrt.Sleep(int64(d))
+	simrt.SleepQuiet(int64(d))
 }
 
 // Ticker is provided for completeness (netpoll does not use one).
